@@ -264,9 +264,9 @@ _TWO_HASH = re.compile(r'(3d[0-9a-f]*?20[0-9a-f]*?3d)')       # "=" ... " " ... 
 
 def _hash_err_equal(a, b, line):
     """two hash arguments of one tag both fail: which error is reported follows HashMap order (finding F12);
-    same reason and same position, different payload"""
+    same position (the tag), same accepted output and log; reason and payload are those of whichever argument was evaluated first"""
     pa, pb = a.split(':'), b.split(':')
-    if len(pa) != len(pb) or pa[:3] != pb[:3] or pa[1] != 'err' or not _TWO_HASH.search(line):
+    if len(pa) != len(pb) or pa[:2] != pb[:2] or pa[1] != 'err' or not _TWO_HASH.search(line):
         return False
     return pa[4:7] == pb[4:7] and pa[7:] == pb[7:]
 
